@@ -222,6 +222,12 @@ def c03(ctx):
 @check("C07")
 def c07(ctx):
     model_check(ctx, "MCOptions.tla", "MCOptions.cfg")
+    # the hashed transcript determines (variant, context, R, A, message): a parser is a left inverse on every scaled tuple;
+    # it rests on "R is never the dom2 prefix", which TLC checks for the real 32-byte constant (non-residue certificate, ASSUME)
+    model_check(ctx, "MCDom2.tla", "MCDom2.cfg")
+    ok, _ = model_check(ctx, "MCDom2.tla", "MCDom2_neg.cfg", expect_ok=False)
+    if ok:
+        raise Infra("model control failed: MCDom2 finds a left inverse although R may equal the prefix")
     sign_family(ctx)
     batch_extra(ctx)     # wrong pre-hash lengths at every batch position (with signatures valid over the wrong-length string), option errors
     finish(ctx, "14 (variant, context) pairs differing in one bit / length / trailing zero / 254 vs 255 / variant: sign under each, verify under every pair (single default, ZIP-215, batch member), "
